@@ -806,3 +806,45 @@ Theorem C17_anti_intra_inter_disjoint :
   In (a, b) (tile_edges m n t) -> In (a, b) (intertile_edges m n t) -> False.
 Proof. exact anti_intra_inter_disjoint. Qed.
 Print Assumptions C17_anti_intra_inter_disjoint.
+
+(* ---------- multiplication_circuit: the wiring GENERATED from the source (Gen/Gen_MultWiring.v) ---------- *)
+(* translators/mult_wiring.py emits the naming functions AND / SUM / CARRY (with the product-bit relabelling at the edges), the
+   list `inputs` of gate(i, j) (initial value + what the nested ifs append), the and_gate arguments, the outputs, the test
+   on len(inputs) that places a half / full adder, and the visiting order; Model/MultWiring.v assembles the gate instances. *)
+From Dimod Require Import Gen.Gen_MultWiring Model.MultWiring Proofs.MultWiringFacts.
+Local Close Scope Z_scope.
+
+Theorem C17_mult_naming_is_source :
+  forall n m i j, gw_AND n m i j = AND_ i j /\ gw_SUM n m i j = SUM_ n i j /\ gw_CARRY n m i j = CARRY_ n m i j.
+Proof. exact (fun n m i j => conj (gw_AND_is_source n m i j) (conj (gw_SUM_is_source n m i j) (gw_CARRY_is_source n m i j))). Qed.
+Print Assumptions C17_mult_naming_is_source.
+
+(* which gates (and / half adder / full adder) stand at position (i, j) *)
+Theorem C17_mult_gate_kind_is_source :
+  forall n m i j, map kind_of (mw_gate n m i j) = map kind_of (gate_ij n m i j).
+Proof. exact mult_gate_kind_is_source. Qed.
+Print Assumptions C17_mult_gate_kind_is_source.
+
+(* ... with all their input / output wires *)
+Theorem C17_mult_gate_is_source : forall n m i j, mw_gate n m i j = gate_ij n m i j.
+Proof. exact mult_gate_is_source. Qed.
+Print Assumptions C17_mult_gate_is_source.
+
+(* TIE: the generated wiring IS the mirror's, as a list of gate instances, for all n, m *)
+Theorem C17_mult_wiring_is_source : forall n m, mw_circuit n m = circuit n m.
+Proof. exact mult_wiring_is_source. Qed.
+Print Assumptions C17_mult_wiring_is_source.
+
+(* the documented relation re-stated over the generated wiring *)
+Theorem C17_multiplication_circuit_generated :
+  forall n m, (2 <= n)%nat -> (2 <= m)%nat ->
+    (forall a : wassign, (0 <= circuit_energy (mw_circuit n m) a)%Z) /\
+    (forall a : wassign, circuit_energy (mw_circuit n m) a = 0%Z ->
+       bits_val (prod_bits n m a) = (bits_val (a_bits n a) * bits_val (b_bits m a))%Z) /\
+    (forall a : wassign,
+       bits_val (prod_bits n m a) <> (bits_val (a_bits n a) * bits_val (b_bits m a))%Z ->
+       (1 <= circuit_energy (mw_circuit n m) a)%Z) /\
+    (forall abits bbits, length abits = n -> length bbits = m ->
+       exists a : wassign, a_bits n a = abits /\ b_bits m a = bbits /\ circuit_energy (mw_circuit n m) a = 0%Z).
+Proof. exact multiplication_circuit_generated. Qed.
+Print Assumptions C17_multiplication_circuit_generated.
